@@ -152,7 +152,30 @@ func runC12(p *Program, r *Result) {
 
 	// ---- R12.4
 	r.Rule("R12.4", "a full buffer is flushed only when more data is pending (or on Close)", 1)
-	for i, c := range callsTo(write, flush.String()) {
+	checkChunkFlushGuard(p, r)
+}
+
+// checkChunkFlushGuard is rule R12.4 (shared with C05 and C01): every call of flushChunk with
+// last == false, in whatever function of the package, is guarded by a full buffer and by
+// pending input of the caller's loop.
+func checkChunkFlushGuard(p *Program, r *Result) {
+	flush := r.anchor(pkgStream, "Writer", "flushChunk")
+	if flush == nil {
+		return
+	}
+	n := 0
+	for _, e := range p.Callers(flush) {
+		c, ok := e.Site.(ssa.CallInstruction)
+		if !ok || len(c.Common().Args) < 2 {
+			continue
+		}
+		if k, isC := c.Common().Args[1].(*ssa.Const); !isC || k.Value == nil || k.Value.ExactString() != "false" {
+			continue
+		}
+		write := e.Caller
+		wtb := p.TB(write)
+		i := n
+		n++
 		okFull := false
 		okMore := false
 		for _, at := range wtb.FactsAt(c.Block()) {
@@ -196,5 +219,8 @@ func runC12(p *Program, r *Result) {
 			}
 		}
 		r.Check(okFull && okMore, write.String(), callKey("flushChunk", i), r.pos(c), "under len(w.unwritten) == ChunkSize && len(p[n:]) > 0", "flushChunk(notLast) is not guarded by a full buffer AND pending input: a full final chunk would be emitted as non-final (changing the chunking of 64 KiB-multiple files depending on how writes are split)")
+	}
+	if n == 0 {
+		r.Bad(pkgStream, "call:flushChunk", "", "no non-final flush found: a stream longer than one chunk could not be written")
 	}
 }
